@@ -337,7 +337,8 @@ where
         }
         Err(e) => return Err(e),
     };
-    rc.stream.consume(addr);
+    // cells are u16 (even addresses): the least significant bit carries the `update` flag
+    rc.stream.consume(addr | (update as usize));
     let bit = b & 1 == 1;
     // (the probability value itself is neither read nor written: which cell was used is the
     //  observable; the update arithmetic is decided with real code in rc_decode_bit_step)
@@ -361,4 +362,60 @@ where
     };
     rc.stream.consume(0);
     Ok(b & 1 == 1)
+}
+
+//@ harness props=C13,C05,C11 tier=quick unwind=10 unwindset=default_read_exact:8 mem_gb=4 timeout=600
+//@ bound: RangeDecoder::new + one real decode_bit on 7 symbolic bytes delivered in symbolic fragments of 1..3 bytes vs all at once
+#[cfg_attr(kani, kani::proof)]
+pub fn rc_new_fragmented() {
+    let mut t = Tape::<24>::new();
+    let f: [u8; 7] = t.bytes::<7>();
+    let cuts: [u8; 8] = t.bytes::<8>();
+    let p0 = 0x400u16;
+    let mut whole = ArrReader::<7>::new(f, 7);
+    let mut frag = FragReader::<7, 8>::new(f, 7, cuts, 3);
+    let (ra, ca, ba, oka) = {
+        let r = RangeDecoder::new(&mut whole);
+        match r {
+            Ok(mut rc) => {
+                let mut p = p0;
+                let b = rc.decode_bit(&mut p, true);
+                let bit = match &b {
+                    Ok(x) => *x,
+                    Err(_) => false,
+                };
+                let ok = b.is_ok();
+                forget(b);
+                (rc.range, rc.code, bit, ok)
+            }
+            Err(e) => {
+                forget(e);
+                (0, 0, false, false)
+            }
+        }
+    };
+    let (rb, cb, bb, okb) = {
+        let r = RangeDecoder::new(&mut frag);
+        match r {
+            Ok(mut rc) => {
+                let mut p = p0;
+                let b = rc.decode_bit(&mut p, true);
+                let bit = match &b {
+                    Ok(x) => *x,
+                    Err(_) => false,
+                };
+                let ok = b.is_ok();
+                forget(b);
+                (rc.range, rc.code, bit, ok)
+            }
+            Err(e) => {
+                forget(e);
+                (0, 0, false, false)
+            }
+        }
+    };
+    vassert!(oka && okb, "range decoder: starts and decodes under every fragmentation");
+    vassert!(ra == rb && ca == cb && ba == bb, "range decoder: state and decision independent of how the reader fragments its data");
+    vassert!(whole.pos == frag.pos, "range decoder: same number of bytes consumed under every fragmentation");
+    vcover!(whole.pos == 5, "five_bytes_consumed");
 }
